@@ -23,6 +23,14 @@ fn masked_report(rd: &E57Reader<Dev>, mask_lib: bool) -> Value {
             // get_cartesian_bounds() is a function of the two stored bounds structures
             p["gcb"] = json!(0);
         }
+        // limits structures that lack a member (not allowed by the standard, a foreign producer may still write them) are
+        // deliberately not written by the writer ("all members are required"): they count as absent on both sides
+        for key in ["intensity_limits", "color_limits"] {
+            let partial = p[key].get("some").map(|l| l.as_object().map(|o| o.values().any(|m| m.get("none").is_some())).unwrap_or(false)).unwrap_or(false);
+            if partial {
+                p[key] = json!({"none": 1});
+            }
+        }
     }
     let mut images: Vec<Value> = rd.images().iter().map(image_tr).collect();
     fn mask_blobs(v: &mut Value) {
